@@ -150,6 +150,9 @@ package lexer
 //@ ensures opener: tagat(l.input, tokstart) ==> l.tagLine == 1 + nl(l.input, tokstart) && result.LineNumber == l.tagLine
 //@ ensures stamp: tokstart < len(l.input) && !tagat(l.input, tokstart) && l.input[tokstart] != '#' ==> l.tagLine == old(l.tagLine) && result.LineNumber == l.tagLine
 //@ ensures stampc: tokstart < len(l.input) && l.input[tokstart] == '#' ==> result.LineNumber == l.tagLine || result.Type == token.EOF
+// C18 (tag splitting): a "%>" closes the tag it stands in - it yields E_END, leaves the tag and consumes exactly
+// those two bytes - whatever follows it (another tag, a comment tag, text)
+//@ ensures closes: tokstart+1 < len(l.input) && l.input[tokstart] == '%' && l.input[tokstart+1] == '>' ==> result.Type == token.E_END && !l.inside && l.position == tokstart+2
 //@ ensures eofline: tokstart >= len(l.input) ==> result.Type == token.EOF && l.tagLine == old(l.tagLine) && result.LineNumber == 1 + nl(l.input, len(l.input))
 //@ ensures progress: result.Type != token.EOF ==> fuel(l) < old(fuel(l))
 //@ assigns l.ch, l.position, l.readPosition, l.curLine, l.inside, l.tagLine
